@@ -72,6 +72,19 @@ func VerifC20_Misuse() {
 	q2.Close()
 	vcheck("misuse/next-after-close", vpanics(func() { q2.Next() }) == vExpectPanic("next-after-close"))
 	vcheck("misuse/unlocked", !W.w.IsLocked())
+	// the same for an unsafe query that visited at least one table
+	uq := NewUnsafeFilter(W.w, W.id[cA]).Query()
+	for uq.Next() {
+	}
+	vcheck("misuse/unsafe-entity-after-exhaustion", vpanics(func() { uq.Entity() }) == vExpectPanic("unsafe-entity-after-exhaustion"))
+	vcheck("misuse/unsafe-get-after-exhaustion", vpanics(func() { uq.Get(W.id[cA]) }) == vExpectPanic("unsafe-get-after-exhaustion"))
+	vcheck("misuse/unsafe-next-after-exhaustion", vpanics(func() { uq.Next() }) == vExpectPanic("unsafe-next-after-exhaustion"))
+	uq2 := NewUnsafeFilter(W.w, W.id[cA]).Query()
+	uq2.Next()
+	uq2.Close()
+	vcheck("misuse/unsafe-entity-after-close", vpanics(func() { uq2.Entity() }) == vExpectPanic("unsafe-entity-after-close"))
+	vcheck("misuse/unsafe-get-after-close", vpanics(func() { uq2.Get(W.id[cA]) }) == vExpectPanic("unsafe-get-after-close"))
+	vcheck("misuse/unlocked-2", !W.w.IsLocked())
 	// component access for a missing component
 	var noVel Entity
 	for i := 0; i < W.n; i++ {
@@ -98,6 +111,8 @@ func vExpectPanic(call string) bool {
 	switch call {
 	case "next-after-exhaustion", "entity-after-exhaustion", "next-after-close":
 		return true
+	case "unsafe-entity-after-exhaustion", "unsafe-get-after-exhaustion", "unsafe-next-after-exhaustion", "unsafe-entity-after-close", "unsafe-get-after-close":
+		return true // the table pointer is cleared on Close: nil dereference in every build
 	case "get-after-exhaustion", "get-before-next":
 		return false // the default build hands out a nil-based pointer without panicking
 	case "set-missing", "unsafe-get-missing", "getrelation-missing":
